@@ -648,7 +648,7 @@ def gen_class(seed):
     for _ in range(rnd.randint(3, 10) if big else rnd.randint(1, 2)): p.point()
     if rnd.random() < .25: p.shared_labels = True          # several sample points carry the same label
     if cls == "BlockSmoothConvexFunction":
-        d = rnd.randint(4, 8) if big else rnd.randint(1, 3); p.emit("%s b1 %d" % (rnd.choice(["part.decl", "part.decl", "part.new"]), d)); f = p.decl(cls, partition=("b1", d))
+        d = rnd.randint(4, 12) if big else rnd.randint(1, 3); p.emit("%s b1 %d" % (rnd.choice(["part.decl", "part.decl", "part.new"]), d)); f = p.decl(cls, partition=("b1", d))
     else:
         inf = cls in ("ConvexIndicatorFunction", "ConvexSupportFunction") and rnd.random() < .3
         f = p.decl(cls, inf=inf)
@@ -904,7 +904,7 @@ def gen_resolve(seed):
         p.emit("solve.fail")
         for f_ in p.F: p.emit("dump.dualtables %s" % f_)
         for c_ in p.C[:2]: p.emit("eval.dual %s" % c_)
-    for _ in range(rnd.randint(3, 14)):
+    for _ in range(rnd.randint(30, 60) if big else rnd.randint(3, 14)):       # large programs: long histories (ten and more solves of one model)
         r = rnd.random()
         if rnd.random() < .15:
             # ask, solve again (another solution), ask the same held object again: nothing may be remembered across solves
@@ -1055,13 +1055,15 @@ LAST_TAINTED = set()
 _PAIR = re.compile(r"([A-Za-z0-9_]+):(-?\d+(?:/\d+)?)(?=[,}])")
 _EX_CALLS = None
 def example_calls():
-    """the parameter tuples of the shipped examples: those of the test-suite and 283 neighbouring ones"""
+    """the parameter tuples of the shipped examples: those of the test-suite, 283 neighbouring ones and 208 far ones"""
     global _EX_CALLS
     if _EX_CALLS is None:
         here = os.path.dirname(os.path.abspath(__file__))
         calls = [dict(module=c["module"], func=c["func"], args={k: v for k, v in c["args"].items() if k not in ("wrapper", "solver", "verbose")})
                  for c in json.load(open(os.path.join(here, "example_calls.json")))]
         calls += [dict(module=c["module"], func=c["func"], args=c["args"]) for c in json.load(open(os.path.join(here, "ref_neighbours.json")))]
+        far = os.path.join(here, "ref_far.json")        # tuples far from the suite's: 12 to 16 iterations, L = 3, step 1 / L (mk_neighbours.py far)
+        if os.path.exists(far): calls += [dict(module=c["module"], func=c["func"], args=c["args"]) for c in json.load(open(far)) if c.get("seconds", 0) <= 30]
         _EX_CALLS = calls
     return _EX_CALLS
 
@@ -1095,7 +1097,7 @@ def example_program(c):
 
 
 def gen_examples(seed):
-    """a REAL program: one of the 386 parameter tuples of the shipped examples"""
+    """a REAL program: one of the 595 parameter tuples of the shipped examples"""
     calls = example_calls()
     return example_program(calls[(seed * 7919) % len(calls)])
 
